@@ -100,6 +100,22 @@ fn emit_byte_model(w: &mut BitWriter, b: u8) {
     }
 }
 
+
+/// `Vec::extend_from_slice` for a Vec whose capacity is known to suffice (same reason as emit_byte_model:
+/// the reallocation path makes CBMC run out of memory as soon as the length is symbolic). Replaces
+/// `Vec::extend_from_slice` (kani::stub; needs `#![feature(allocator_api)]`, added to the scratch copy by the
+/// runner via `crate_attrs`) in the obligations on flush_buf/finalize; equivalence with the real method for
+/// T = u8 is obligation `extend_model_contract`.
+fn extend_model<T: Clone, A: core::alloc::Allocator>(v: &mut Vec<T, A>, s: &[T]) {
+    assert!(!core::mem::needs_drop::<T>(), "model is a bitwise copy");
+    let l = v.len();
+    assert!(l + s.len() <= v.capacity(), "harness reserves enough capacity");
+    unsafe {
+        core::ptr::copy_nonoverlapping(s.as_ptr(), v.as_mut_ptr().add(l), s.len());
+        v.set_len(l + s.len());
+    }
+}
+
 // capacity reserved by the harnesses: 2 earlier bytes + 8 raw bytes, each possibly stuffed (one operation);
 // 4 x 63 bits = 32 raw bytes, each possibly stuffed (sequence)
 const RESERVE: usize = 18;
@@ -186,6 +202,36 @@ fn emit_byte_model_contract() {
     check_emit(true);
 }
 
+fn check_extend(model: bool) {
+    let (mut w, prefix, plen) = any_wf_writer();
+    let src: [u8; 8] = kani::any();
+    let n: usize = kani::any();
+    kani::assume(n <= 8);
+    if model {
+        extend_model(&mut w.output, &src[..n]);
+    } else {
+        w.output.extend_from_slice(&src[..n]);
+    }
+    assert!(prefix_kept(&w.output, &prefix, plen), "earlier output is not touched");
+    assert!(w.output.len() == plen + n, "n bytes are appended");
+    kani::cover!(n == 8 && plen == 2);
+    kani::cover!(n == 0);
+    let k: usize = kani::any();
+    kani::assume(k < n);
+    assert!(w.output[plen + k] == src[k], "the appended bytes are the slice");
+}
+
+/// the real method and the model satisfy the same deterministic, complete postcondition => they agree
+#[kani::proof]
+fn extend_real_contract() {
+    check_extend(false);
+}
+
+#[kani::proof]
+fn extend_model_contract() {
+    check_extend(true);
+}
+
 // ------------------------------------------------------------------------------------------------
 // new
 // ------------------------------------------------------------------------------------------------
@@ -258,6 +304,7 @@ fn check_write(raw_kind: bool) {
 #[kani::proof]
 #[kani::unwind(9)]
 #[kani::stub(BitWriter::emit_byte, emit_byte_model)]
+#[kani::stub(std::vec::Vec::extend_from_slice, extend_model)]
 fn write_huffman_contract() {
     check_write(false);
 }
@@ -265,6 +312,7 @@ fn write_huffman_contract() {
 #[kani::proof]
 #[kani::unwind(9)]
 #[kani::stub(BitWriter::emit_byte, emit_byte_model)]
+#[kani::stub(std::vec::Vec::extend_from_slice, extend_model)]
 fn write_raw_contract() {
     check_write(true);
 }
@@ -286,6 +334,7 @@ fn padding_bits_contract() {
 #[kani::proof]
 #[kani::unwind(9)]
 #[kani::stub(BitWriter::emit_byte, emit_byte_model)]
+#[kani::stub(std::vec::Vec::extend_from_slice, extend_model)]
 fn finalize_contract() {
     let (w, prefix, plen) = any_wf_writer();
     let vbb = w.valid_buf_bits;
@@ -314,6 +363,7 @@ fn finalize_contract() {
 #[kani::proof]
 #[kani::unwind(33)]
 #[kani::stub(BitWriter::emit_byte, emit_byte_model)]
+#[kani::stub(std::vec::Vec::extend_from_slice, extend_model)]
 fn bitwriter_sequence() {
     let mut w = BitWriter::new();
     w.output.reserve_exact(RESERVE_SEQ); // see emit_byte_model
